@@ -106,22 +106,27 @@ class _L(list):
 
 def np_shim():
     """numpy stand-in for writexml: divide(..., where=b != 0) -> 0 where b == 0, on symbolic scalars"""
-    def _div1(a, b):
-        a, b = SV(a), SV(b)
-        nz = b != 0
-        if isinstance(nz, SB) and nz.concrete:
-            return a / b if nz.b else SV(0)
-        return a / b if bool(nz) else SV(0)
+    def _truth(w):
+        if isinstance(w, SB):
+            return bool(w)
+        if isinstance(w, np.ndarray):
+            return _truth(w.reshape(()).item())
+        return bool(w)
 
     class _NP:
         def __getattr__(self, k):
             return getattr(np, k)
 
         @staticmethod
-        def divide(a, b, out=None, where=None, dtype=None):
-            if isinstance(a, (list, tuple, np.ndarray)):
-                return _L(_div1(x, y) for x, y in zip(list(np.asarray(a, dtype=object).ravel()), list(np.asarray(b, dtype=object).ravel())))
-            return _div1(a, b)
+        def divide(a, b, out=None, where=True, dtype=None):
+            """element-wise a / b where `where` (as computed by the caller) holds, else the value of `out`"""
+            scalar = not isinstance(a, (list, tuple, np.ndarray)) or (isinstance(a, np.ndarray) and a.ndim == 0)
+            A = [a] if scalar else list(np.asarray(a, dtype=object).ravel())
+            Bv = [b] * len(A) if not isinstance(b, (list, tuple, np.ndarray)) or (isinstance(b, np.ndarray) and b.ndim == 0) else list(np.asarray(b, dtype=object).ravel())
+            Wv = list(np.broadcast_to(np.asarray(where, dtype=object), (len(A),)))
+            Ov = [0.0] * len(A) if out is None else ([out] * len(A) if not isinstance(out, (list, tuple, np.ndarray)) else list(np.asarray(out, dtype=object).ravel()))
+            res = _L((SV(x) / SV(y)) if _truth(w) else SV(o) for x, y, w, o in zip(A, Bv, Wv, Ov))
+            return res[0] if scalar else res
 
         @staticmethod
         def zeros_like(a):
